@@ -1,14 +1,14 @@
 /-
   C05 — candidate clusters group protoclusters by the documented kinds.
-  Property theorems only; helper lemmas in ASV/Proofs/{MergeSets,Candidates,Coverage,Members,SpecBridge,NoDup,Passes}.lean.
+  Property theorems only; helper lemmas in ASV/Proofs/{MergeSets,Candidates,Coverage,Members,SpecBridge,NoDup,Passes,Total,HybridWindow}.lean.
 
-  Model: ASV/Model/Candidates.lean (formation.py after the repairs D16, D19, D501–D506).
+  Model: ASV/Model/Candidates.lean (formation.py after the repairs D16, D19, D501–D507).
   `formation ps wrap` is `create_candidates_from_protoclusters(protoclusters, circular_wrap_point)`;
   `wrap = none` is a linear record.  Protoclusters carry their index in the input as identity, so the
   only hypothesis on the input is `ps.Nodup` (no protocluster object supplied twice), and only where
   counting is involved.  Every theorem holds for all inputs, linear and circular, of any size.
 -/
-import ASV.Proofs.Passes
+import ASV.Proofs.HybridWindow
 namespace ASV.C05
 open ASV ASV.CC ASV.CC.Spec
 
@@ -68,6 +68,15 @@ theorem final_sanity_check_never_fires (ps : List Proto) (wrap : Option Int) (hn
     (∀ e, formationCore ps wrap = .error e → formation ps wrap = .error e) :=
   ⟨fun _ h => formation_eq_core h hn, fun _ h => formation_error_core h⟩
 
+/-- on a linear record with well-formed protoclusters (extent and core single parts, extent not
+    negative) nothing is raised at all — no constructor guard, no `assert`, no `ValueError` — so the
+    coverage above is never vacuous there -/
+theorem formation_succeeds_on_line (ps : List Proto) (hn : ps.Nodup)
+    (hps : ∀ p, p ∈ ps → (∃ q, p.loc = .simple q ∧ 0 ≤ q.lo ∧ q.lo ≤ q.hi) ∧ ∃ r, p.core = .simple r) :
+    ∃ cs, formation ps none = .ok cs ∧ coversAll ps cs = true := by
+  obtain ⟨cs, h⟩ := formation_total_linear hn hps
+  exact ⟨cs, h, every_protocluster_in_a_candidate ps none cs h⟩
+
 /-! ### 3. a candidate's location is the connected span of its members -/
 
 /-- every returned candidate's location is `connect_locations` of its members' locations and
@@ -116,7 +125,7 @@ theorem candidate_location_exact_on_line (ps : List Proto) (cs : List Cand) (hn 
 /-- on a linear record: distinct non-single candidates have distinct coordinates (the table key,
     both ends of the hull, determines the hull), singles are for distinct protoclusters, and a
     single never has the members of a larger candidate -/
-theorem no_duplicate_candidates_linear (ps : List Proto) (cs : List Cand) (hn : ps.Nodup)
+theorem no_duplicate_candidates_partial (ps : List Proto) (cs : List Cand) (hn : ps.Nodup)
     (hlin : ∀ p, p ∈ ps → p.loc.parts ≠ [] ∧ bridgesOrigin p.loc = false)
     (h : formation ps none = .ok cs) : noDuplicates cs = true :=
   formation_noDuplicates_linear hn hlin h
@@ -134,7 +143,7 @@ def NoDuplicateCandidates : Prop :=
     in one hybrid group; (2) every hybrid group is one such chain class `m` (≥ 2 protoclusters) plus
     protoclusters that share no gene with any other protocluster and whose core lies inside the
     connected core of `m`.  (That *every* such contained protocluster is picked up by the bisect
-    window is left to the correspondence.) -/
+    window: `hybrid_groups_exact_partial` below for linear records, the correspondence for circular ones.) -/
 theorem hybrid_groups_are_sharing_classes (clusters : List Proto) (wrap : Option Int) (hg : List (List Proto))
     (un : List Proto) (hn : clusters.Nodup) (h : findHybrids clusters wrap = .ok (hg, un)) :
     (∀ a b, Linked (shareGroups clusters) a b → ∃ g, g ∈ hg ∧ a ∈ g ∧ b ∈ g) ∧
@@ -148,6 +157,34 @@ theorem hybrid_groups_are_sharing_classes (clusters : List Proto) (wrap : Option
   intro g hg'
   obtain ⟨m, core, a, b, c, d, e⟩ := h2 g hg'
   exact ⟨m, core, a, two_le_length b, c, d, e⟩
+
+/-- Full statement (any record): a hybrid group is a sharing class plus exactly the unshared
+    protoclusters whose core lies inside the class's connected core.  Proved below for linear records
+    (H: `wrap = none`, cores non-empty single parts inside their extents); on a circular record the
+    window works on `core_start`, which is not the sort key for origin-spanning cores — correspondence. -/
+def HybridGroupsExact : Prop :=
+  ∀ (clusters : List Proto) (wrap : Option Int) (hg : List (List Proto)) (un : List Proto), clusters.Nodup →
+    findHybrids clusters wrap = .ok (hg, un) →
+    ∀ g, g ∈ hg → ∃ (m : List Proto) (core : Loc), (∀ x, x ∈ m → x ∈ g) ∧ 2 ≤ m.length ∧
+        (∀ a b, a ∈ m → b ∈ m → Linked (shareGroups clusters) a b) ∧
+        connect (m.map (·.core)) wrap = .ok core ∧
+        ∀ p, p ∈ clusters → (∀ q, q ∈ clusters → q ≠ p → shares p q = false) →
+          (p ∈ g ↔ locationContainsOther core p.core = true)
+
+/-- Chemical hybrids on a linear record, exact: every hybrid group is one sharing class `m` plus
+    **exactly** the protoclusters that share with nobody and whose core lies inside the connected core
+    of `m` — the `bisect − 1` window and the early `break` lose none (cores non-empty single parts
+    inside their extents, the list sorted by core start). -/
+theorem hybrid_groups_exact_partial (clusters : List Proto) (hg : List (List Proto)) (un : List Proto)
+    (hn : clusters.Nodup)
+    (hv : ∀ p, p ∈ clusters → ∃ r, p.core = .simple r ∧ r.lo < r.hi ∧ p.loc.start ≤ r.lo)
+    (h : findHybrids clusters none = .ok (hg, un)) :
+    ∀ g, g ∈ hg → ∃ (m : List Proto) (core : Loc), (∀ x, x ∈ m → x ∈ g) ∧ 2 ≤ m.length ∧
+        (∀ a b, a ∈ m → b ∈ m → Linked (shareGroups clusters) a b) ∧
+        connect (m.map (·.core)) none = .ok core ∧
+        ∀ p, p ∈ clusters → (∀ q, q ∈ clusters → q ≠ p → shares p q = false) →
+          (p ∈ g ↔ locationContainsOther core p.core = true) :=
+  findHybrids_complete_linear h hn hv
 
 /-- Interleaved, completeness (any record): two protoclusters linked by a chain of units (hybrid
     candidates with their combined cores `cc`, unabsorbed protoclusters) with overlapping cores are in
@@ -163,7 +200,7 @@ theorem interleaved_pairs_complete (clusters : List Proto) (cands : List Cand) (
   exact (mergeSets_linked G a b).2 (linked_of_cover h1 hl)
 
 /-- Interleaved on a linear record: exactly the chain classes of "cores overlap" -/
-theorem interleaved_groups_are_core_overlap_classes_linear (clusters : List Proto) (cands : List Cand)
+theorem interleaved_groups_are_classes_partial (clusters : List Proto) (cands : List Cand)
     (cc : List CandC) (ig : List (List Proto)) (un : List Proto) (hn : clusters.Nodup)
     (hne : ∀ p, p ∈ clusters → p.core.PartsNonEmpty)
     (hcc : withCores none cands = .ok cc) (h : findInterleaved clusters cands none = .ok (ig, un)) :
@@ -204,16 +241,51 @@ def FormationIsOrderIndependent : Prop :=
 /-- D19's layout on the repaired code: the origin-spanning protocluster is de-duplicated against
     the neighbouring candidate with the same coordinates, `single{B}` stays -/
 example :
-    summary (formation [⟨0, .compound [⟨850, 1000, .fwd⟩, ⟨0, 150, .fwd⟩], .compound [⟨950, 1000, .fwd⟩, ⟨0, 50, .fwd⟩], []⟩,
-                ⟨1, .simple ⟨90, 130, .fwd⟩, .simple ⟨100, 120, .fwd⟩, []⟩] (some 1000)) =
+    summary (formation [⟨0, .compound [⟨850, 1000, .fwd⟩, ⟨0, 150, .fwd⟩], .compound [⟨950, 1000, .fwd⟩, ⟨0, 50, .fwd⟩], [], "a"⟩,
+                ⟨1, .simple ⟨90, 130, .fwd⟩, .simple ⟨100, 120, .fwd⟩, [], "b"⟩] (some 1000)) =
     some [(.neighbouring, [0, 1]), (.single, [1])] := by decide +kernel
 
 /-- a linear record with a hybrid pair, a single chained to it through another single (D501) -/
 example :
-    summary (formation [⟨0, .simple ⟨280, 310, .fwd⟩, .simple ⟨280, 310, .fwd⟩, [1]⟩,
-                ⟨1, .simple ⟨380, 440, .fwd⟩, .simple ⟨400, 420, .fwd⟩, []⟩,
-                ⟨2, .simple ⟨320, 390, .fwd⟩, .simple ⟨340, 370, .fwd⟩, [1]⟩,
-                ⟨3, .simple ⟨430, 490, .fwd⟩, .simple ⟨450, 470, .fwd⟩, []⟩] none) =
+    summary (formation [⟨0, .simple ⟨280, 310, .fwd⟩, .simple ⟨280, 310, .fwd⟩, [1], "a"⟩,
+                ⟨1, .simple ⟨380, 440, .fwd⟩, .simple ⟨400, 420, .fwd⟩, [], "b"⟩,
+                ⟨2, .simple ⟨320, 390, .fwd⟩, .simple ⟨340, 370, .fwd⟩, [1], "c"⟩,
+                ⟨3, .simple ⟨430, 490, .fwd⟩, .simple ⟨450, 470, .fwd⟩, [], "d"⟩] none) =
     some [(.neighbouring, [0, 2, 1, 3]), (.hybrid, [0, 2]), (.single, [1]), (.single, [3])] := by decide +kernel
+
+/-- D507 on the repaired code: members with identical coordinates come in a fixed order (by product),
+    whatever the order of the input -/
+example :
+    summary (formation [⟨0, .simple ⟨80, 130, .fwd⟩, .simple ⟨90, 120, .fwd⟩, [1], "c"⟩,
+                        ⟨1, .simple ⟨80, 130, .fwd⟩, .simple ⟨90, 120, .fwd⟩, [1], "a"⟩,
+                        ⟨2, .simple ⟨80, 130, .fwd⟩, .simple ⟨90, 120, .fwd⟩, [1], "b"⟩] none) =
+      some [(.hybrid, [1, 2, 0])] ∧
+    summary (formation [⟨2, .simple ⟨80, 130, .fwd⟩, .simple ⟨90, 120, .fwd⟩, [1], "b"⟩,
+                        ⟨0, .simple ⟨80, 130, .fwd⟩, .simple ⟨90, 120, .fwd⟩, [1], "c"⟩,
+                        ⟨1, .simple ⟨80, 130, .fwd⟩, .simple ⟨90, 120, .fwd⟩, [1], "a"⟩] none) =
+      some [(.hybrid, [1, 2, 0])] := by decide +kernel
+
+/-- the hypotheses of the linear theorems (`formation_succeeds_on_line`, `hybrid_groups_exact_partial`,
+    `no_duplicate_candidates_partial`) hold for that input -/
+example :
+    let ps : List Proto := [⟨0, .simple ⟨280, 310, .fwd⟩, .simple ⟨280, 310, .fwd⟩, [1], "a"⟩,
+                            ⟨1, .simple ⟨380, 440, .fwd⟩, .simple ⟨400, 420, .fwd⟩, [], "b"⟩,
+                            ⟨2, .simple ⟨320, 390, .fwd⟩, .simple ⟨340, 370, .fwd⟩, [1], "c"⟩,
+                            ⟨3, .simple ⟨430, 490, .fwd⟩, .simple ⟨450, 470, .fwd⟩, [], "d"⟩]
+    ps.Nodup ∧
+    (∀ p, p ∈ ps → (∃ q, p.loc = .simple q ∧ 0 ≤ q.lo ∧ q.lo ≤ q.hi) ∧ ∃ r, p.core = .simple r) ∧
+    (∀ p, p ∈ ps → ∃ r, p.core = .simple r ∧ r.lo < r.hi ∧ p.loc.start ≤ r.lo) ∧
+    (∀ p, p ∈ ps → p.loc.parts ≠ [] ∧ bridgesOrigin p.loc = false) := by
+  intro ps
+  refine ⟨by decide, ?_, ?_, ?_⟩
+  · intro p hp
+    simp only [ps, List.mem_cons, List.mem_nil_iff, or_false] at hp
+    rcases hp with rfl | rfl | rfl | rfl <;> exact ⟨⟨_, rfl, by decide, by decide⟩, ⟨_, rfl⟩⟩
+  · intro p hp
+    simp only [ps, List.mem_cons, List.mem_nil_iff, or_false] at hp
+    rcases hp with rfl | rfl | rfl | rfl <;> exact ⟨_, rfl, by decide, by decide⟩
+  · intro p hp
+    simp only [ps, List.mem_cons, List.mem_nil_iff, or_false] at hp
+    rcases hp with rfl | rfl | rfl | rfl <;> exact ⟨by decide, by decide⟩
 
 end ASV.C05
